@@ -28,6 +28,7 @@ Proof. intros k. unfold axis_kw. destruct (is_attr_kind k); repeat split; try re
 
 Section PRT.
 Variable fl : flags.
+Variable pf : pflags.
 Variable ns : str -> option str.
 Variable n : nat.
 Let pe := p_expr fl ns n.
@@ -131,11 +132,24 @@ Qed.
 Lemma pk_idkey : forall name X, (name = kw_id \/ name = kw_key) -> primary_kind fl (name :: lp :: X) = PkCall.
 Proof. intros name X [-> | ->]; destruct fl as [a b c]; destruct c; vm_compute; reflexivity. Qed.
 
-Lemma idkey_name : forall name args, idkey_ok (EFunc name args) = true ->
-  (name = kw_id \/ name = kw_key) /\ canon (EFunc name args) = true /\ lit_ok (EFunc name args) = true.
+Lemma elit_lit_ok : forall args, forallb is_elit args = true ->
+  (fix args (l : list expr) : bool := match l with [] => true | x :: r => (starts_lit x && lit_ok x && args r)%bool end) args = true.
 Proof.
-  intros name args H. unfold idkey_ok in H. andbs H. repeat split; auto.
-  apply orb_prop in H. destruct H as [H|H]; apply str_eqb_eq in H; auto.
+  induction args as [|x r IH]; intros H; [reflexivity|]. cbn [forallb] in H. apply andb_prop in H. destruct H as [H1 H2].
+  destruct x; try discriminate. cbn [starts_lit lit_ok andb]. apply IH. exact H2.
+Qed.
+
+Lemma idkey_name : forall name args, idkey_ok (EFunc name args) = true ->
+  (name = kw_id \/ name = kw_key) /\ canon (EFunc name args) = true /\ lit_ok (EFunc name args) = true /\
+  forall pf0 X, head_call_ok pf0 (tok_is (name :: X) kw_key) (EFunc name args) = true.
+Proof.
+  intros name args H. unfold idkey_ok in H. andbs H.
+  assert (L : lit_ok (EFunc name args) = true) by (cbn [lit_ok]; apply elit_lit_ok; exact H0).
+  apply orb_prop in H. repeat split; auto.
+  - destruct H as [H|H]; apply andb_prop in H; destruct H as [H _]; apply str_eqb_eq in H; auto.
+  - intros pf0 X. unfold head_call_ok. rewrite L, H0.
+    destruct H as [H|H]; apply andb_prop in H; destruct H as [Hn Hl]; apply str_eqb_eq in Hn; subst name;
+      apply Nat.eqb_eq in Hl; rewrite Hl; destruct (px_args pf0), (px_count pf0); reflexivity.
 Qed.
 
 Lemma funcall_rt : forall name args rest, idkey_ok (EFunc name args) = true ->
@@ -144,7 +158,7 @@ Lemma funcall_rt : forall name args rest, idkey_ok (EFunc name args) = true ->
   p_funcall fl ns pe lf 0 (pr (EFunc name args) ++ rest) = Ok (EFunc name args, rest) /\
   is_idkey (pr (EFunc name args) ++ rest) = true.
 Proof.
-  intros name args rest H Hl Hd R1 R2. destruct (idkey_name _ _ H) as (Hn & Hc & Hlit).
+  intros name args rest H Hl Hd R1 R2. destruct (idkey_name _ _ H) as (Hn & Hc & Hlit & _).
   pose proof (prim_rt fl ns pe lf n (expr_size (EFunc name args)) ltac:(unfold lf; lia)
                 (fun e He Hce => Hpe _ e He Hce) (EFunc name args) eq_refl Hc ltac:(lia) 0 rest ltac:(lia) ltac:(lia) R1 R2) as P.
   unfold p_primary in P. rewrite pr_func in *. cbn [app] in *.
@@ -177,31 +191,34 @@ Proof.
   unfold is_idkey, axis_kw. destruct (is_attr_kind k); repeat split; reflexivity.
 Qed.
 
-(* the part of LocationPathPattern() after its head, on the tokens of the steps *)
-Lemma tail_rt : forall hd r ab pre rest, canon_psteps r = true -> (pre = [] \/ pre = [sl]) ->
-  (r = [] -> pre = [] /\ hd <> []) -> (pre = [sl] -> r <> []) ->
+(* the part of LocationPathPattern() after its head, on the tokens of the steps (both shapes of the source) *)
+Lemma tail_rt : forall hd r ab req pre rest, canon_psteps r = true -> (pre = [] \/ pre = [sl]) ->
+  (r = [] -> pre = [] /\ hd <> [] /\ req = false) -> (pre = [sl] -> r <> [] /\ req = false) ->
   length (pre ++ ppr_steps r ++ rest) < n -> dep_psteps r <= gen_xpc_max_nesting -> pstop rest = true ->
-  (if isnil (pre ++ ppr_steps r ++ rest) then Ok (hd, pre ++ ppr_steps r ++ rest)
-   else if negb (N.eqb (tokc (pre ++ ppr_steps r ++ rest)) ch_bar) then
-     bind (ss, ts2) <- pp_steps fl ns pe lf lf (pre ++ ppr_steps r ++ rest); Ok (hd ++ ss, ts2)
-   else if (ab && isnil hd)%bool then Err
-   else Ok (hd, pre ++ ppr_steps r ++ rest)) = Ok (hd ++ r, rest).
+  pp_tail fl pf ns pe lf ab hd req (pre ++ ppr_steps r ++ rest) = Ok (hd ++ r, rest).
 Proof.
-  intros hd r ab pre rest Hc Hpre H0 H1 Hl Hd Hr.
+  intros hd r ab req pre rest Hc Hpre H0 H1 Hl Hd Hr. unfold pp_tail.
   destruct (pstop_facts _ Hr) as (S1 & S2 & S3 & S4 & S5 & S6).
   destruct r as [|s r'].
-  - destruct (H0 eq_refl) as [-> Hh]. cbn [ppr_steps app]. rewrite app_nil_r.
+  - destruct (H0 eq_refl) as (-> & Hh & ->). cbn [ppr_steps app]. rewrite app_nil_r. cbn [andb orb].
+    assert (Q : (negb (isnil rest) && negb (N.eqb (tokc rest) ch_bar))%bool = false).
+    { destruct S6 as [S6|S6]; rewrite S6; [reflexivity|apply andb_false_r]. }
+    rewrite Q. destruct hd as [|h0 hd']; [congruence|]. cbn [isnil].
+    destruct (px_lpp pf); [reflexivity|].
     destruct S6 as [S6|S6].
     + rewrite S6. reflexivity.
-    + destruct rest as [|t q]; [reflexivity|]. cbn [isnil]. rewrite S6. cbn [negb].
-      destruct hd; [congruence|]. cbn [isnil]. rewrite andb_false_r. reflexivity.
+    + destruct rest as [|t q]; [reflexivity|]. cbn [isnil]. rewrite S6. cbn [negb]. rewrite andb_false_r. reflexivity.
   - assert (NE : s :: r' <> []) by discriminate.
     destruct (steps_first2 (s :: r') rest NE Hc) as (G1 & G2 & G3 & G4).
     assert (Q : isnil (pre ++ ppr_steps (s :: r') ++ rest) = false /\
-                N.eqb (tokc (pre ++ ppr_steps (s :: r') ++ rest)) ch_bar = false).
-    { destruct Hpre as [-> | ->]; cbn [app]; [split; assumption|split; reflexivity]. }
-    destruct Q as [Q1 Q2]. rewrite Q1, Q2. cbn [negb].
-    rewrite psteps_rt; auto; unfold lf; lia.
+                N.eqb (tokc (pre ++ ppr_steps (s :: r') ++ rest)) ch_bar = false /\
+                (req && N.eqb (tokc (pre ++ ppr_steps (s :: r') ++ rest)) ch_solidus)%bool = false).
+    { destruct Hpre as [-> | ->]; cbn [app].
+      - repeat split; try assumption. unfold tok, str, pstep in *. rewrite G3. apply andb_false_r.
+      - destruct (H1 eq_refl) as [_ ->]. repeat split; reflexivity. }
+    destruct Q as (Q1 & Q2 & Q3). rewrite Q1, Q2, Q3. cbn [negb andb orb].
+    rewrite psteps_rt; auto; try (unfold lf; lia).
+    destruct (px_lpp pf); [reflexivity|]. rewrite andb_false_r. reflexivity.
 Qed.
 
 Lemma idkey_sl : forall X, is_idkey (sl :: X) = false.
@@ -210,7 +227,7 @@ Proof. intros X. unfold is_idkey. replace (tok_is (sl :: X) kw_id) with false by
 
 Lemma lpp_rt : forall a ab rest, canon_lp a = true -> length (ppr_lp a ++ rest) < n ->
   dep_lp a <= gen_xpc_max_nesting -> pstop rest = true ->
-  pp_lpp fl ns pe lf ab (ppr_lp a ++ rest) = Ok (a, rest).
+  pp_lpp fl pf ns pe lf ab (ppr_lp a ++ rest) = Ok (a, rest).
 Proof.
   intros a ab rest Hc Hl Hd Hr.
   destruct (pstop_facts _ Hr) as (S1 & S2 & S3 & S4 & S5 & S6).
@@ -220,8 +237,10 @@ Proof.
   - (* relative *)
     apply negb_true_iff in Hc0. assert (NE : r <> []) by (destruct r; [discriminate|discriminate]).
     destruct (steps_first2 r rest NE Hc) as (G1 & G2 & G3 & G4).
-    unfold pp_head. rewrite G4, G3. cbn [andb].
-    apply (tail_rt [] r ab [] rest); auto; try lia; try discriminate; try (intros ->; congruence); try (intros _; split; [reflexivity|discriminate]); try (destruct r; auto; fail); try (destruct r; [discriminate|intros _; discriminate]); try (cbn [app]; cbn [app length] in Hl; lia); try (cbn [app]; rewrite app_length in Hl; cbn [length] in Hl; lia); try (rewrite <- T; rewrite app_length in Hl; lia); try len.
+    unfold pp_head. rewrite G4, G3.
+    change (ppr_steps r ++ rest) with ([] ++ ppr_steps r ++ rest).
+    apply (tail_rt [] r ab false [] rest);
+      [exact Hc|left; reflexivity|intros E0; exfalso; apply NE; exact E0|discriminate|cbn [app]; exact Hl|lia|exact Hr].
   - (* '/' *)
     unfold pp_head.
     assert (I : is_idkey (sl :: ppr_steps r ++ rest) = false /\ look_c (sl :: ppr_steps r ++ rest) ch_solidus 1 = false).
@@ -230,60 +249,68 @@ Proof.
       - assert (NE : s :: r' <> []) by discriminate.
         destruct (ppr_steps_first (s :: r') rest NE Hc) as (F1 & F2 & F3 & F4 & F5). exact F5. }
     cbn [app]. destruct I as [I1 I2]. unfold tok, str, pstep in *. rewrite I1, I2.
-    unfold sl at 1. cbn [tokc]. rewrite N.eqb_refl. cbn [tl andb].
-    apply (tail_rt [head_root] r ab [] rest); auto; try (cbn [length app] in Hl; lia); try discriminate; try (intros _; split; [reflexivity|discriminate]); try (cbn [app]; cbn [app length] in Hl; lia); try len.
+    replace (N.eqb (tokc (sl :: ppr_steps r ++ rest)) ch_solidus) with true by reflexivity. cbn [tl].
+    change (ppr_steps r ++ rest) with ([] ++ ppr_steps r ++ rest).
+    apply (tail_rt [head_root] r ab false [] rest);
+      [exact Hc|left; reflexivity|intros _; repeat split; discriminate|discriminate|len|lia|exact Hr].
   - (* '//' *)
     apply negb_true_iff in Hc0. assert (NE : r <> []) by (destruct r; [discriminate|discriminate]).
-    destruct (steps_first2 r rest NE Hc) as (G1 & G2 & G3 & G4).
     unfold pp_head. cbn [app].
-    change (is_idkey (sl :: sl :: ppr_steps r ++ rest)) with false.
-    change (N.eqb (tokc (sl :: sl :: ppr_steps r ++ rest)) ch_solidus) with true.
-    replace (look_c (sl :: sl :: ppr_steps r ++ rest) ch_solidus 1) with true by reflexivity. cbv iota beta. cbn [tl].
-    unfold tok, str, pstep in *.
-    assert (Q : (true && (isnil (ppr_steps r ++ rest) || N.eqb (tokc (ppr_steps r ++ rest)) ch_bar))%bool = false)
-      by (unfold tok, str, pstep in *; rewrite G1, G2; reflexivity).
-    unfold tok, str, pstep in *. rewrite Q.
-    apply (tail_rt [head_anyp] r ab [] rest); auto; try lia; try discriminate; try (intros ->; congruence); try (intros _; split; [reflexivity|discriminate]); try (destruct r; auto; fail); try (destruct r; [discriminate|intros _; discriminate]); try (cbn [app]; cbn [app length] in Hl; lia); try (cbn [app]; rewrite app_length in Hl; cbn [length] in Hl; lia); try (rewrite <- T; rewrite app_length in Hl; lia); try len.
+    rewrite idkey_sl.
+    replace (N.eqb (tokc (sl :: sl :: ppr_steps r ++ rest)) ch_solidus) with true by reflexivity.
+    replace (look_c (sl :: sl :: ppr_steps r ++ rest) ch_solidus 1) with true by reflexivity. cbn [tl].
+    change (ppr_steps r ++ rest) with ([] ++ ppr_steps r ++ rest).
+    apply (tail_rt [head_anyp] r ab true [] rest);
+      [exact Hc|left; reflexivity|intros E0; exfalso; apply NE; exact E0|discriminate|len|lia|exact Hr].
   - (* id() / key() alone or followed by '/' *)
     destruct f as [| | | | | | | | | | | | | | | | | | |name args| |]; try discriminate Hc0.
     set (tailtoks := match r with [] => [] | _ => sl :: ppr_steps r end) in *.
     assert (T : tailtoks ++ rest = (match r with [] => [] | _ => [sl] end) ++ ppr_steps r ++ rest).
     { unfold tailtoks. destruct r; reflexivity. }
     assert (R : look_c (tailtoks ++ rest) ch_lparen 0 = false /\ look_c (tailtoks ++ rest) ch_colon 0 = false /\
-                is_dslash (tailtoks ++ rest) = false).
-    { unfold tailtoks. destruct r as [|s r']; [cbn [app]; auto|].
-      assert (NE : s :: r' <> []) by discriminate.
-      destruct (ppr_steps_first (s :: r') rest NE Hc) as (F1 & F2 & F3 & F4 & F5).
-      repeat split; try reflexivity. unfold is_dslash. cbn [app]. unfold sl at 1. cbn [tokc]. rewrite N.eqb_refl. exact F5. }
-    destruct R as (R1 & R2 & R3).
+                is_dslash (tailtoks ++ rest) = false /\
+                (px_lpp pf && negb (isnil (tailtoks ++ rest)) && negb (N.eqb (tokc (tailtoks ++ rest)) ch_solidus) && negb (N.eqb (tokc (tailtoks ++ rest)) ch_bar))%bool = false).
+    { unfold tailtoks. destruct r as [|s r'].
+      - cbn [app]. repeat split; auto. destruct S6 as [S6|S6]; rewrite S6; cbn [negb]; rewrite ?andb_false_r; reflexivity.
+      - assert (NE : s :: r' <> []) by discriminate.
+        destruct (ppr_steps_first (s :: r') rest NE Hc) as (F1 & F2 & F3 & F4 & F5).
+        repeat split; try reflexivity.
+        + unfold is_dslash. cbn [app]. unfold sl at 1. cbn [tokc]. rewrite N.eqb_refl. exact F5.
+        + cbn [app]. replace (N.eqb (tokc (sl :: ppr_steps (s :: r') ++ rest)) ch_solidus) with true by reflexivity. cbn [negb]. rewrite andb_false_r. reflexivity. }
+    destruct R as (R1 & R2 & R3 & R4).
     rewrite <- app_assoc in *.
     destruct (funcall_rt name args (tailtoks ++ rest) Hc0 Hl ltac:(lia) R1 R2) as [P I].
-    unfold pp_head. unfold tok, str, pstep in *. rewrite I, P.
-    destruct (idkey_name _ _ Hc0) as (_ & _ & Hlit). rewrite Hlit. cbn [negb]. rewrite R3.
-    rewrite T. cbn [andb].
-    apply (tail_rt [head_fn (EFunc name args)] r ab (match r with [] => [] | _ => [sl] end) rest); auto; try lia.
-    + destruct r; auto.
-    + intros ->. split; [reflexivity|discriminate].
-    + destruct r; [discriminate|intros _; discriminate].
-    + clear T P I R1 R2 R3. unfold tailtoks in *. destruct r; cbn [app] in *; [cbn [ppr_steps app] in *|]; len.
+    destruct (idkey_name _ _ Hc0) as (_ & _ & _ & Hok).
+    unfold pp_head. rewrite pr_func in *. cbn [app] in *. unfold tok, str, pstep in *. rewrite I, P.
+    rewrite Hok. cbn [negb]. rewrite R4. rewrite R3.
+    unfold tailtoks in *. clear T.
+    destruct r as [|s r'].
+    + cbn [app]. change rest with ([] ++ ppr_steps [] ++ rest) at 1.
+      apply (tail_rt [head_fn (EFunc name args)] [] ab false [] rest);
+        [reflexivity|left; reflexivity|intros _; repeat split; discriminate|discriminate|cbn [app ppr_steps]; clear P I; len|cbn; lia|exact Hr].
+    + cbn [app]. change (sl :: ppr_steps (s :: r') ++ rest) with ([sl] ++ ppr_steps (s :: r') ++ rest).
+      apply (tail_rt [head_fn (EFunc name args)] (s :: r') ab false [sl] rest);
+        [exact Hc|right; reflexivity|discriminate|intros _; split; [discriminate|reflexivity]|clear P I; cbn [app] in *; len|lia|exact Hr].
   - (* id() / key() followed by '//' *)
     destruct f as [| | | | | | | | | | | | | | | | | | |name args| |]; try discriminate Hc0.
     apply andb_prop in Hc0. destruct Hc0 as [Hf Hne].
     apply negb_true_iff in Hne. assert (NE : r <> []) by (destruct r; [discriminate|discriminate]).
-    destruct (ppr_steps_first r rest NE Hc) as (F1 & F2 & F3 & F4 & F5).
     rewrite <- app_assoc in *. cbn [app] in *.
     destruct (funcall_rt name args (sl :: sl :: ppr_steps r ++ rest) Hf Hl ltac:(lia) eq_refl eq_refl) as [P I].
-    unfold pp_head. unfold tok, str, pstep in *. rewrite I, P.
-    destruct (idkey_name _ _ Hf) as (_ & _ & Hlit). rewrite Hlit. cbn [negb].
-    change (is_dslash (sl :: sl :: ppr_steps r ++ rest)) with true. cbn [tl andb].
-    apply (tail_rt [head_fn (EFunc name args); head_anyf] r ab [sl] rest); auto; try lia.
-    + intros E0. exfalso. apply NE. exact E0.
-    + cbn [app]. clear P I. len.
+    destruct (idkey_name _ _ Hf) as (_ & _ & _ & Hok).
+    unfold pp_head. rewrite pr_func in *. cbn [app] in *. unfold tok, str, pstep in *. rewrite I, P.
+    rewrite Hok. cbn [negb].
+    assert (TS : forall X : list (list N), N.eqb (tokc (sl :: X)) ch_solidus = true) by reflexivity.
+    assert (DS : forall X : list (list N), is_dslash (sl :: sl :: X) = true) by reflexivity.
+    rewrite TS, DS. cbn [negb andb tl]. rewrite !andb_false_r. rewrite ?andb_false_l. cbv iota beta.
+    change (sl :: ppr_steps r ++ rest) with ([sl] ++ ppr_steps r ++ rest).
+    apply (tail_rt [head_fn (EFunc name args); head_anyf] r ab false [sl] rest);
+      [exact Hc|right; reflexivity|intros E0; exfalso; apply NE; exact E0|intros _; split; [exact NE|reflexivity]|clear P I; cbn [app] in *; len|lia|exact Hr].
 Qed.
 
 Lemma pattern_rt : forall P, P <> [] -> forallb canon_lp P = true ->
   forall m ab, length (ppr P) < n -> length (ppr P) < m -> dep_pattern P <= gen_xpc_max_nesting ->
-  pp_pattern fl ns pe lf m ab (ppr P) = Ok (P, []).
+  pp_pattern fl pf ns pe lf m ab (ppr P) = Ok (P, []).
 Proof.
   induction P as [|a r IH]; intros NE Hc m ab Hl Hm Hd; [congruence|].
   cbn [forallb] in Hc. apply andb_prop in Hc. destruct Hc as [Ha Hr]. cbn [dep_pattern] in Hd.
@@ -300,11 +327,11 @@ Qed.
 
 End PRT.
 
-Theorem pattern_parse_print_m : forall fl ns P, pcanon P = true -> dep_pattern P <= gen_xpc_max_nesting ->
-  pparse fl ns (ppr P) = Ok P.
+Theorem pattern_parse_print_m : forall fl pf ns P, pcanon P = true -> dep_pattern P <= gen_xpc_max_nesting ->
+  pparse fl pf ns (ppr P) = Ok P.
 Proof.
-  intros fl ns P Hc Hd. unfold pcanon in Hc. apply andb_prop in Hc. destruct Hc as [H1 H2].
+  intros fl pf ns P Hc Hd. unfold pcanon in Hc. apply andb_prop in Hc. destruct Hc as [H1 H2].
   apply negb_true_iff in H1. assert (NE : P <> []) by (destruct P; [discriminate|discriminate]).
   unfold pparse.
-  rewrite (pattern_rt fl ns (S (length (ppr P))) P NE H2 (S (S (length (ppr P)))) false); auto; lia.
+  rewrite (pattern_rt fl pf ns (S (length (ppr P))) P NE H2 (S (S (length (ppr P)))) false); auto; lia.
 Qed.
